@@ -200,6 +200,17 @@ struct Gen {
         switch (t) { case 0: return point(R); case 1: return line(R); case 2: return polygon(R); case 3: return multi("MP", R);
                      case 4: return multi("ML", R); case 5: return multi("MY", R); default: return collection(R, 0); }
     }
+    // large inputs: enough facet sequences for multi-level R-trees (node capacity 10, 6 segments per sequence)
+    IG big(int R) {
+        out.count("gen_big");
+        switch (r.below(3)) {
+            case 0: { IG g; g.tag = "MP"; int n = r.range(15, 70); for (int i = 0; i < n; i++) g.kids.push_back(point(R)); return g; }
+            case 1: { IG g; g.tag = "L"; Ring s; P p = rp(R); s.push_back(p); int n = r.range(40, 120);
+                      for (int i = 0; i < n; i++) { P q = p; q.x += r.range(-3, 3); q.y += r.range(-3, 3); if (q.x > R) q.x -= 4; if (q.x < -R) q.x += 4; if (q.y > R) q.y -= 4; if (q.y < -R) q.y += 4; if (q == p) q.x += 1; s.push_back(q); p = q; }
+                      g.seqs.push_back(s); return g; }
+            default: { IG g; g.tag = "ML"; int n = r.range(8, 22); for (int i = 0; i < n; i++) { IG l = line(R); if (l.seqs[0].size() == 2 && l.seqs[0][0] == l.seqs[0][1]) l.seqs[0][1].x += 1; g.kids.push_back(l); } return g; }
+        }
+    }
     // a small geometry around the origin (for containment configurations)
     IG small() {
         switch (r.below(4)) {
@@ -312,6 +323,7 @@ int main(int argc, char** argv) {
     for (long i = 0; i < n; i++) {
         int ta = (int) r.below(7), tb = (int) r.below(7);
         IG A = gen.ofType(ta, 8), B = gen.ofType(tb, 8);
+        if (r.chance(6)) { A = gen.big(r.chance(50) ? 12 : 40); ta = A.tag == "MP" ? 3 : A.tag == "L" ? 1 : 4; if (r.chance(60)) { B = gen.big(r.chance(50) ? 12 : 40); tb = B.tag == "MP" ? 3 : B.tag == "L" ? 1 : 4; } }
         std::string cfg;
         std::vector<P> va, vb; collectVerts(A, va); collectVerts(B, vb);
         int c = (int) r.below(100);
